@@ -88,6 +88,14 @@ Section Stores.
     match rs with [] => d | r :: rs' => file_saves rs' (fst (file_save r d)) end.
 End Stores.
 
+(** a sequence of saves through one S3 cassette *)
+Section S3Saves.
+  Variable qp : list N -> str.
+  Variable compress : bytes -> bytes.
+  Fixpoint s3_saves (c : cfg) (rs : list (recording * sampling)) (st : bstate) : bstate :=
+    match rs with [] => st | (r, s) :: rs' => s3_saves c rs' (fst (s3_save qp compress c r s st)) end.
+End S3Saves.
+
 (** what a faithful fetch of [r] shows *)
 Definition fetched_of (r : recording) : fetched :=
   Fetched (VStr (r_id r)) (canon (VDict (r_data r))) (canon (VDict (r_meta r))).
